@@ -100,6 +100,8 @@ class Report:
     def ob(self, rule, ok, node=None, func=None, construct=None, how="", witness=None, key=None,
            nontrivial=False, loc=None):
         """Record one obligation.  `func` is a Func (or a string), node an ast node."""
+        if node is not None and hasattr(node, "_sa_func"):
+            func = node._sa_func
         fq = func.qual if hasattr(func, "qual") else (func or "")
         if loc is None:
             if hasattr(func, "loc"):
